@@ -61,7 +61,7 @@ CHECKS = {
                       'If the code stops delegating to the primitive the modular harness reports undecided (cover unsatisfied), not a violation. Assumed (harness preconditions, not proved of the typer): arity matches the operator; operands are all of one enum type or none; '
                       'both operands have the same kind; ~ only on integers; the type / enum registries hold the layers the cast harness stubs for their getters. Bool operands are left out of < <= > >= because Kani 0.68 mis-models the ordering of bool. '
                       'In the Verus unit evaluate_operator / evaluate_cast are uninterpreted functions of their arguments and registry getters are assumed. Float16 is stored as f32 (no rounding to half is required or checked). '
-                      'Verus also proves the hand-off parse_and_evaluate_constant_expression (array sizes, template value arguments): the restricted constant has exactly the evaluated value and kind (parse_expr uninterpreted). Not covered: the other callers of evaluate_constexpr (enum values, case labels, attribute arguments). CBMC IEEE-754 float model.',
+                      'Verus also proves the hand-off parse_and_evaluate_constant_expression (array sizes, template value arguments): the restricted constant has exactly the evaluated value and kind (parse_expr uninterpreted). and parse_rootdefinition_enum (an enumerator without initialiser is the previous one plus one, the first one 0, computed without overflow or panic; explicit initialisers go through evaluate_constexpr). Not covered: the other callers of evaluate_constexpr (case labels, attribute arguments). CBMC IEEE-754 float model.',
     },
 }
 
